@@ -109,7 +109,7 @@ func (fx *fnExec) callStatic0(callee *ssa.Function, args []Val, bindings []Val, 
 		} else {
 			ex.UnderContr[name] = true
 		}
-		return fx.applyContract(c, callee, fx.materializeArgs(args), st, pos, rt)
+		return fx.applyContract(c, callee, fx.softMaterializeArgs(args), st, pos, rt)
 	}
 	if callee.Blocks == nil {
 		return fx.opaqueCall(name, callee, args, st, rt)
@@ -218,9 +218,25 @@ func (fx *fnExec) applyContract(c *Contract, callee *ssa.Function, args []Val, s
 		ex.assumeAll(st, typeInv(rv, 0))
 		rvals = append(rvals, rv)
 	}
-	// result references are allocated afterwards; contents of newly allocated result objects are unknown
-	for _, rv := range rvals {
-		fx.allocResult(st, old, rv)
+	if c.Allocates {
+		// the callee may allocate: the allocation set grows in an unknown way
+		oa := st.alloc()
+		na := Fresh("alloc_after_"+funcKey(callee), allocSort)
+		r := Fresh("r", IntSort)
+		ex.assume(st, Forall([]*Term{r}, Implies(Select(oa, r), Select(na, r)), Select(oa, r)))
+		st.heapSet(allocKey, na)
+	}
+	if len(c.Modifies) == 0 && !c.Allocates {
+		// a callee that modifies and allocates nothing returns only references that existed before
+		// (checked on the callee's side as obligation post.noalloc)
+		for _, rv := range rvals {
+			ex.assumeHeapWF(old, rv)
+		}
+	} else {
+		// result references are allocated afterwards; contents of newly allocated result objects are unknown
+		for _, rv := range rvals {
+			fx.allocResult(st, old, rv)
+		}
 	}
 	switch sig.Len() {
 	case 0:
@@ -637,8 +653,9 @@ func (fx *fnExec) builtin(b *ssa.Builtin, cc *ssa.CallCommon, st *State, pos tok
 				lt = BVUlt(a.S(), r.S())
 			}
 			if b.Name() == "max" {
-				lt = Not(Or(lt, Eq(a.S(), r.S())))
-				r = scalar(r.T, Ite(lt, r.S(), a.S()))
+				// lt: a < r; max keeps r unless a > r
+				gt := Not(Or(lt, Eq(a.S(), r.S())))
+				r = scalar(r.T, Ite(gt, a.S(), r.S()))
 			} else {
 				r = scalar(r.T, Ite(lt, a.S(), r.S()))
 			}
